@@ -38,8 +38,12 @@ INSTR_RS = "tracing/src/instrument.rs"
 FUT_RS = "tracing-futures/src/lib.rs"
 MACROS_RS = "tracing/src/macros.rs"
 LIB_RS = "tracing/src/lib.rs"
+DISPATCH_RS = "tracing-core/src/dispatch.rs"
+COLLECT_RS = "tracing-core/src/collect.rs"
 
-FEATURES_ON = {"std", "std-future"}
+FEATURES_ON = {"std", "std-future", "alloc"}
+# the Collect methods a span handle reaches through its Dispatch, and through a Box<C> / Arc<C> the collector sits behind
+FORWARDED = ["new_span", "record", "record_follows_from", "enter", "exit", "clone_span", "try_close", "current_span"]
 CFG_IDENTS_ON = set()          # docsrs, test, tracing_verif ... are off
 
 
@@ -758,10 +762,39 @@ def analyse(repo):
         else:
             row(S + "WithDispatch::dropglue", [unrec("struct WithDispatch")])
             row(S + "WithDispatch::clone", [unrec("struct WithDispatch")])
+    # ---- the way from the handle's Dispatch to the collector: Dispatch::m and the Box<C> / Arc<C> impls of Collect
+    for path, cls, hdr, recv in ((DISPATCH_RS, "Dispatch", r"\nimpl Dispatch\s*\{", "self.collector()"),
+                                 (COLLECT_RS, "Box<C>", r"\nimpl<C> Collect for alloc::boxed::Box<C>", "self.as_ref()"),
+                                 (COLLECT_RS, "Arc<C>", r"\nimpl<C> Collect for Arc<C>", "self.as_ref()")):
+        src = load(repo, path, U)
+        for fn in FORWARDED:
+            row(cls + "::" + fn, forward_row(src, hdr, cls, fn, recv))
     for k, evs in rows:
         for u in collect_unrec(evs):
             U.append("%s: %s" % (k, u))
     return rows, U
+
+
+def forward_row(src, hdr, cls, fn, recv):
+    """[SInvoke "Collect::<fn>"] if <cls>::<fn> hands exactly its arguments to the same method of the wrapped collector"""
+    found = None
+    for _m, body, _s, _e in find_blocks(src, hdr):
+        found = find_fn(body, fn)
+        if found is not None:
+            break
+    else:
+        if found is None and not list(find_blocks(src, hdr)):
+            return [unrec("impl block of %s not found" % cls)]
+    if found is None:
+        return [unrec("%s does not override %s: the trait's provided method runs instead" % (cls, fn))]
+    sig, body = found
+    pm = re.search(r"\((.*)\)", sig, re.S)
+    params = [p.split(":")[0].strip() for p in split_top(pm.group(1), ",")[1:]] if pm else None
+    want = "%s.%s(%s)" % (recv, fn, ", ".join(params or []))
+    got = norm(body).rstrip(";").strip()
+    if got == want:
+        return [("SInvoke", "Collect::" + fn)]
+    return [unrec("%s::%s: %s" % (cls, fn, got))]
 
 
 def retarget(ev, S):
